@@ -193,9 +193,9 @@ def eval_irc(ctx, cases):
         try:
             if c['ctor'] == 'Message':
                 kw = {'prefix': c['prefix']} if c.get('prefix') is not None else {}
-                msg = Message(c['command'], *c['args'], **kw)
+                msg = Message(c['command'], *typed_args(c), **kw)
             else:
-                msg = getattr(commands, c['ctor'])(*c['args']).args[0]
+                msg = getattr(commands, c['ctor'])(*typed_args(c)).args[0]
                 # glue: the constructor must build the message the table says
                 padded = list(c['args'])
                 o.append(f"construct {sx(c['ctor'])} {' '.join(opt(a) for a in padded)}")
@@ -584,14 +584,28 @@ def eval_comp(ctx, cases):
         ctx.case(c, nontrivial=any('resp' in p for p in rec['per']), validated=ok)
 
 
+def typed_args(c):
+    """the arguments as the case hands them to the constructor: text, or the same text as a byte string"""
+    out = []
+    for i, a in enumerate(c['args']):
+        if i in c.get('bytes_args', ()) and isinstance(a, str):
+            try:
+                out.append(a.encode('utf-8'))
+                continue
+            except UnicodeEncodeError:
+                pass
+        out.append(a)
+    return out
+
+
 def build_message(c):
     """the Message of a case (constructor table or Message() directly); raises what the code raises"""
     from circuits.protocols.irc import commands
     from circuits.protocols.irc.message import Message
     if c['ctor'] == 'Message':
         kw = {'prefix': c['prefix']} if c.get('prefix') is not None else {}
-        return Message(c['command'], *c['args'], **kw)
-    return getattr(commands, c['ctor'])(*c['args']).args[0]
+        return Message(c['command'], *typed_args(c), **kw)
+    return getattr(commands, c['ctor'])(*typed_args(c)).args[0]
 
 
 def eval_creq(ctx, cases):
@@ -1073,6 +1087,18 @@ def run(ctx):
               ('ircparse', parse_cases(ctx)), ('comp', comp_cases(ctx)), ('creq', creq_cases(ctx)), ('ping', ping_cases(ctx)),
               ('fromstr', fromstr_cases(ctx)), ('util', util_cases(ctx))]
     check_params(ctx)
+    # the constructors also take byte strings (they are decoded with the message's encoding): in a quarter of the 'irc' and
+    # 'creq' cases some arguments are handed over as bytes - the same text, the same expectations
+    for kind, cases in groups:
+        if kind in ('irc', 'creq'):
+            for c in cases:
+                if c.get('args') and ctx.rng.random() < 0.25:
+                    idx = [i for i, a in enumerate(c['args']) if isinstance(a, str) and ctx.rng.random() < 0.7]
+                    if idx:
+                        c['bytes_args'] = idx
+                        ctx.count('argument_type', 'bytes')
+                        continue
+                ctx.count('argument_type', 'str')
     for kind, cases in groups:
         for i in range(0, len(cases), 400):
             EVAL[kind](ctx, cases[i:i + 400])
